@@ -91,6 +91,8 @@ where
                 self.maxvaluetracker.update(k, h);
                 qmax = self.maxvaluetracker.get_max_value();
                 if h >= qmax {
+                    #[cfg(feature = "verif_hooks")]
+                    crate::verif::tick(crate::verif::Event::PmhPruneBreak);
                     break;
                 }
             }
@@ -127,6 +129,12 @@ where
     /// return final signature.
     pub fn get_signature(&self) -> &Vec<D> {
         &self.signature
+    }
+
+    /// verification hook : per position register values
+    #[cfg(feature = "verif_hooks")]
+    pub fn verif_registers(&self) -> Vec<f64> {
+        (0..self.m).map(|k| self.maxvaluetracker.get_value(k)).collect()
     }
 
     /// reinitialize structure for another hash pass
